@@ -206,7 +206,7 @@ def m3(ctx):
               "ematch_node iterates %s: on some path the candidates are not the full variant enumeration of the e-node. Which grandchild binds which pattern variable depends on the orientation of a symmetric child even when the child patterns mention no slot, so an instance that exists only as a group variant of the stored node is never matched" % role_str(src)[:120], where_of(b, lp[0]))
     v = [c for c in b.calls if c.callee and c.callee.name == "get_group_compatible_weak_variants"]
     for c in v:
-        C.check_only_allowed_skips(ctx, b, c.bb, [("eq", lambda t, cond: t.startswith("discriminant(") and "discriminant(" in t[13:])] if hosted else [],
+        C.check_only_allowed_skips(ctx, b, c.bb, [("eq", lambda t, cond: t.startswith("discriminant(") and "discriminant(" in t[13:])],      # (operator mismatch: legitimate in the caller's loop or here)
                                    "variant-enumeration", "enumerating the group-compatible variants of the e-node")
         a1 = strip_role(b.role_of_operand(c.args[1]))
         ctx.check(a1 == ("param", "nn") or (hosted and role_mentions_call(a1, "enodes_applied") and role_mentions_call(a1, "next")), "variants-of-the-enode", "variants are those of the e-graph node nn",
@@ -217,7 +217,7 @@ def m3(ctx):
         C.check_only_allowed_skips(ctx, b, c.bb, [
             ("eq", lambda t, cond: "weak_shape(" in t and t.count("weak_shape(") >= 2),
             ("true", lambda t, cond: t.startswith("try_insert_compatible_slotmap_bij(")),
-        ] + ([("eq", lambda t, cond: t.startswith("discriminant(") and "discriminant(" in t[13:])] if hosted else []), "ematch_node", "accepting a variant")
+        ] + [("eq", lambda t, cond: t.startswith("discriminant(") and "discriminant(" in t[13:])], "ematch_node", "accepting a variant")
     # children: zip of all applied ids with all child patterns, inner loops exhaustive
     loops = C.iterator_loops(b)
     zl = [l for l in loops if role_mentions_call(l[1], "zip") and role_mentions_call(l[1], "applied_id_occurrences")]
